@@ -63,6 +63,7 @@ static void many_live(struct res *r) {
 
 /* part 2: N cycles of every constructor / operation with two bystander seeds */
 static void many_calls(long N, struct res *r) {
+    E.alloc_recycle = 1;
     polyseed_data *by[2]; rseed bm[2];
     if (make(900001, &by[0], &bm[0], r, "calls") || make(900002, &by[1], &bm[1], r, "calls")) { ledger_drop_all(); return; }
     polyseed_crypt(by[1], "bystander"); ref_crypt(&bm[1], E.mask);
@@ -86,6 +87,9 @@ static void many_calls(long N, struct res *r) {
                   int en = polyseed_enable_features((unsigned)(n / 6) % 8); if (en != __builtin_popcount((unsigned)(n / 6) % 8)) { res_viol(r, "c13:long:calls:enable", rep, "enable_features number %ld returned %d", n / 6, en); goto out; } polyseed_enable_features(7); r->calls += 2; } break;
         }
         if (d) {
+            /* a handed-out seed works like any seed whatever the block it sits in held before (blocks are recycled with their last contents here) */
+            { uint8_t key[32], salt[32]; unsigned kc = (unsigned)(n % 2048); env_clear_log(); polyseed_keygen(d, (polyseed_coin)kc, 32, key); r->calls++; ref_keygen_salt(&m, kc, salt);
+              if (E.n_kdf != 1 || E.kdf.saltlen != 32 || memcmp(E.kdf.salt, salt, 32)) { res_viol(r, "c13:long:calls:keygen-of-new-seed", rep, "key derivation on the seed handed out by call number %ld (kind %ld): KDF calls %lu, salt %s", n, n % 6, E.n_kdf, E.kdf.saltlen == 32 && !memcmp(E.kdf.salt, salt, 32) ? "ok" : "differs from the model"); polyseed_free(d); goto out; } }
             if (!same(d, &m)) { res_viol(r, "c13:long:calls:seed", rep, "the seed handed out by call number %ld (kind %ld) differs from the model", n, n % 6); polyseed_free(d); goto out; }
             if (ledger_is(3, (uint64_t)n, r, "calls")) goto out;
             polyseed_free(d); r->calls++;
@@ -94,11 +98,13 @@ static void many_calls(long N, struct res *r) {
         if ((n & 255) == 255 || n == N - 1) for (int b = 0; b < 2; b++) if (!same(by[b], &bm[b])) { res_viol(r, "c13:long:calls:bystander", rep, "after %ld calls bystander seed %d differs from the model", n + 1, b); goto out; }
         r->validated++; r->cls[0]++;
     }
+    E.alloc_recycle = 0;
     polyseed_free(by[0]); polyseed_free(by[1]);
     if (ledger_live()) res_viol(r, "c15:long:calls:final-ledger", "calls end", "%d blocks live after everything was released", ledger_live());
     res_sample(r, "%ld cycles of create / load / decode_explicit / decode / crypt / keygen+enable_features, two bystander seeds", N);
     return;
 out:
+    E.alloc_recycle = 0;
     ledger_drop_all();
 }
 
